@@ -2,8 +2,11 @@ package main
 
 import (
 	"encoding/json"
+	"go/token"
+
 	"fmt"
 	"go/types"
+	"golang.org/x/tools/go/ssa"
 	"os"
 	"os/exec"
 	"path/filepath"
@@ -282,5 +285,59 @@ func replayMain(args []string) int {
 	return 0
 }
 
-// programChecks: whole-program structural obligations per property (none yet).
-func (e *Engine) programChecks(id string) []*Oblig { return nil }
+// programChecks: whole-program structural obligations per property.
+func (e *Engine) programChecks(id string) []*Oblig {
+	var out []*Oblig
+	add := func(name string, ok bool, src string, pos token.Pos) {
+		fc := e.newFnCtx("program."+name, nil, nil)
+		fc.short = "program"
+		goal := "true"
+		if !ok {
+			goal = "false"
+		}
+		o := fc.oblig("structural", name, goal, "true", pos, []string{id})
+		o.Src = src
+		out = append(out, o)
+	}
+	switch id {
+	case "C16", "C08":
+		// Only emit/emitError send on a lexer's token channel, only run closes it; hence the ghost
+		// log maintained by their contracts is the complete output of the lexer.
+		sp := e.ssaPkgs["github.com/google/badwolf/bql/lexer"]
+		if sp == nil {
+			add("lexer.package-present", false, "package bql/lexer not found", 0)
+			break
+		}
+		okSend, okClose, okGo := true, true, true
+		var bad token.Pos
+		for f := range e.allFuncs {
+			if f.Pkg != sp {
+				continue
+			}
+			for _, b := range f.Blocks {
+				for _, in := range b.Instrs {
+					switch i := in.(type) {
+					case *ssa.Send:
+						if !(f.Name() == "emit" || f.Name() == "emitError") {
+							okSend, bad = false, i.Pos()
+						}
+					case *ssa.Call:
+						if bi, ok := i.Call.Value.(*ssa.Builtin); ok && bi.Name() == "close" && f.Name() != "run" {
+							okClose, bad = false, i.Pos()
+						}
+					case *ssa.Go:
+						if f.Name() != "lex" {
+							okGo, bad = false, i.Pos()
+						}
+					case *ssa.Select:
+						okSend, bad = false, i.Pos()
+					}
+				}
+			}
+		}
+		add("lexer.only-emit-sends", okSend, "every channel send of package lexer is in emit or emitError", bad)
+		add("lexer.only-run-closes", okClose, "close() is called only in (*lexer).run", bad)
+		add("lexer.single-goroutine", okGo, "the only go statement of package lexer is in lex", bad)
+	}
+	return out
+}
